@@ -20,7 +20,7 @@ OPS = ("rfft", "ifft", "parseval", "fftconvolve", "correlate", "mspec")
 
 
 def REQUIRED(tier):
-    return [f"op:{o}" for o in OPS] + ["len:odd_good_size", "len:prime", "len:power_of_two", "direct_dft_checks", "op:rfft_after_longer", "class:max_zero", "input_unchanged_checks", "regime:second_operand_longer", "mspec:after_interpolated_request", "correlate:operands_share_a_buffer", "rfft:after_in_place_edits", "kernel:zeros_at_both_ends"]
+    return [f"op:{o}" for o in OPS] + ["len:odd_good_size", "len:prime", "len:power_of_two", "direct_dft_checks", "op:rfft_after_longer", "class:max_zero", "input_unchanged_checks", "regime:second_operand_longer", "mspec:after_interpolated_request", "correlate:operands_share_a_buffer", "rfft:after_in_place_edits", "kernel:zeros_at_both_ends", "correlate:template_series_reused", "flat_kernel_on_long_offset_series"]
 
 
 def EXHAUSTIVE(tier):
@@ -31,6 +31,8 @@ def cases(tier, seed):
     nmax = 300 if tier == "quick" else 2100
     for n0 in range(1, nmax + 1, 5):
         yield {"ns": list(range(n0, min(n0 + 5, nmax + 1))), "seed": int(seed)}
+    for n in ((1 << 21,) if tier == "quick" else (1 << 21, 3000017, 1 << 22)):
+        yield {"ns": [], "flat_long": True, "n": n, "seed": int(seed)}
     if tier == "thorough":
         rng = np.random.default_rng([seed, 1212])
         for _ in range(200):
@@ -78,9 +80,39 @@ def _is_prime(n):
     return n >= 2 and all(n % p for p in range(2, int(n ** 0.5) + 1))
 
 
+def _flat_long(case, ctx):
+    """Boxcar (all-equal) kernels on a long total-power series (mean >> rms): float32 FFT noise is ~1e-7*|x|*|k|; a running-sum shortcut in
+    single precision is off by thousands of times that."""
+    from sigpyproc.core import kernels
+    from sigpyproc.timeseries import TimeSeries
+
+    rng = np.random.default_rng([case["seed"], 77])
+    n = int(case["n"])
+    x = (1.3e5 + 300.0 * rng.normal(size=n)).astype(np.float32)
+    x64 = x.astype(np.float64)
+    cs = np.concatenate([[0.0], np.cumsum(x64)])
+    for m in (24, 64):
+        for height in (1.0, 0.25):
+            k = np.full(m, height, dtype=np.float32)
+            idx = np.arange(n + m - 1)
+            want = height * (cs[np.minimum(idx + 1, n)] - cs[np.maximum(idx + 1 - m, 0)])     # exact boxcar sums in double precision
+            tol = 2e-6 * float(np.linalg.norm(x64)) * float(np.linalg.norm(k))
+            for nm, fn in (("fftconvolve", lambda: kernels.fftconvolve(x, k)), ("correlate", lambda: TimeSeries(x, _hdr(n)).correlate(k).data)):
+                ctx.evaluated(); ctx.count(f"op:{nm}"); ctx.count("flat_kernel_on_long_offset_series")
+                got = np.asarray(fn(), dtype=np.float64)
+                err = float(np.max(np.abs(got - want))) if got.size == want.size else float("inf")
+                if err > tol:
+                    ctx.violation(f"{nm}-values:flat-kernel-long-series", f"n={n} boxcar of {m} x {height}: max error {err:.3e} > {tol:.3e} (series mean 1.3e5, rms 300)", dict(case))
+                    return
+    ctx.nontrivial_case({"flat_long": n})
+
+
 def run_case(case, ctx):
     from sigpyproc.core import kernels
     from sigpyproc.timeseries import TimeSeries
+
+    if case.get("flat_long"):
+        return _flat_long(case, ctx)
 
     for n in case["ns"]:
         rng = np.random.default_rng([case["seed"], n])
@@ -196,7 +228,14 @@ def run_case(case, ctx):
                     ctx.violation(f"fftconvolve-raised:{type(exc).__name__}@{exc_site(exc)}", f"n={n} m={m}: {fmt_exc(exc)}", onem)
                 ctx.evaluated(); ctx.count("op:correlate")
                 try:
-                    cr = ts.correlate(k)
+                    if m % 2 and m > 1:
+                        # the template is a series object of its own, used for a first observation and then for this one
+                        tmpl = TimeSeries(k, _hdr(m))
+                        ts.correlate(tmpl)
+                        cr = ts.correlate(tmpl)
+                        ctx.count("correlate:template_series_reused")
+                    else:
+                        cr = ts.correlate(k)
                     c = np.asarray(cr.data, dtype=np.float64)
                     wantr = np.correlate(x64, k64, mode="full")  # lags -(m-1)..n-1
                     if c.size != n + m - 1 or cr.header.nsamples != c.size:
